@@ -942,7 +942,7 @@ type selSite struct {
 
 func hasOptIn(gs []Guard, name string, pol bool) bool {
 	c := optCond(name)
-	for _, g := range gs {
+	for _, g := range expandBitGuards(gs) {
 		g = g.norm()
 		if g.Pol == pol && c(g.Cond) {
 			return true
@@ -952,8 +952,14 @@ func hasOptIn(gs []Guard, name string, pol bool) bool {
 }
 
 func hasMaskIn(gs []Guard, bit int64) bool {
-	for _, g := range gs {
+	for _, g := range expandBitGuards(gs) {
 		g = g.norm()
+		if bf, isBF := g.Cond.(*bitFact); isBF {
+			if g.Pol && bf.Bit == bit {
+				return true
+			}
+			continue
+		}
 		bo, ok := g.Cond.(*ssa.BinOp)
 		if !ok {
 			continue
@@ -989,6 +995,45 @@ func hasMaskIn(gs []Guard, bit int64) bool {
 func selectionSites(f *ssa.Function) []selSite {
 	var out []selSite
 	var trace func(v ssa.Value, gs []Guard, at ssa.Instruction, d int, seen map[ssa.Value]bool)
+	// fixedBy: the guards say v == K for a constant K
+	fixedBy := func(v ssa.Value, gs []Guard) (int64, bool) {
+		for _, g := range gs {
+			g = g.norm()
+			bo, ok := g.Cond.(*ssa.BinOp)
+			if !ok || (bo.Op == token.EQL) != g.Pol || (bo.Op != token.EQL && bo.Op != token.NEQ) {
+				continue
+			}
+			if k, okk := constInt(bo.Y); okk && stripIntConv(bo.X) == v {
+				return k, true
+			}
+			if k, okk := constInt(bo.X); okk && stripIntConv(bo.Y) == v {
+				return k, true
+			}
+		}
+		return 0, false
+	}
+	// splitByEdges: v is used in block b; every way into b fixes v to a constant (switch v { case 1, 2: use(v) })
+	var splitByEdges func(v ssa.Value, b *ssa.BasicBlock, d int) ([]selSite, bool)
+	splitByEdges = func(v ssa.Value, b *ssa.BasicBlock, d int) ([]selSite, bool) {
+		if b == nil || d > 3 || len(b.Preds) == 0 {
+			return nil, false
+		}
+		var res []selSite
+		for _, p := range b.Preds {
+			gs := guardsOnEdge(p, b)
+			if k, ok := fixedBy(v, gs); ok {
+				res = append(res, selSite{val: k, guards: gs})
+				continue
+			}
+			sub, ok := splitByEdges(v, p, d+1)
+			if !ok {
+				return nil, false
+			}
+			res = append(res, sub...)
+		}
+		return res, true
+	}
+	var useBlock *ssa.BasicBlock
 	trace = func(v ssa.Value, gs []Guard, at ssa.Instruction, d int, seen map[ssa.Value]bool) {
 		v = stripIntConv(v)
 		if cv, ok := v.(*ssa.Convert); ok {
@@ -1003,6 +1048,25 @@ func selectionSites(f *ssa.Function) []selSite {
 			return
 		}
 		seen[v] = true
+		ub := useBlock
+		useBlock = nil
+		if _, isC := v.(*ssa.Const); !isC {
+			// a variable that the branch taken fixes to a constant
+			if k, ok := fixedBy(v, gs); ok {
+				if k != 0 {
+					out = append(out, selSite{pos: at.Pos(), val: k, guards: gs, in: at})
+				}
+				return
+			}
+			if sub, ok := splitByEdges(v, ub, 0); ok {
+				for _, s := range sub {
+					if s.val != 0 {
+						out = append(out, selSite{pos: at.Pos(), val: s.val, guards: append(append([]Guard{}, gs...), s.guards...), in: at})
+					}
+				}
+				return
+			}
+		}
 		switch x := v.(type) {
 		case *ssa.Const:
 			if k, ok := constInt(x); ok {
@@ -1013,6 +1077,7 @@ func selectionSites(f *ssa.Function) []selSite {
 			}
 		case *ssa.Phi:
 			for i, e := range x.Edges {
+				useBlock = x.Block().Preds[i]
 				trace(e, append(append([]Guard{}, gs...), guardsOnEdge(x.Block().Preds[i], x.Block())...), at, d+1, seen)
 			}
 			return
@@ -1051,6 +1116,7 @@ func selectionSites(f *ssa.Function) []selSite {
 						break
 					}
 					// the helper's own branch facts (about its parameters) hold for the arguments
+					useBlock = ret.Block()
 					trace(res[0], append(append([]Guard{}, gs...), guardsOf(ret.Block())...), at, d+1, map[ssa.Value]bool{})
 				}
 				return
@@ -1069,11 +1135,13 @@ func selectionSites(f *ssa.Function) []selSite {
 			if k, okk := constInt(ia.Index); !okk || k != 3 {
 				return
 			}
+			useBlock = x.Block()
 			trace(x.Val, guardsOf(x.Block()), x, 0, map[ssa.Value]bool{})
 		case *ssa.Call:
 			if o := calleeObj(x); o != nil && o.Pkg() != nil && o.Pkg().Path() == "encoding/binary" && o.Name() == "PutUint32" {
 				args := x.Call.Args
 				if len(args) >= 2 && is4(args[len(args)-2]) {
+					useBlock = x.Block()
 					trace(args[len(args)-1], guardsOf(x.Block()), x, 0, map[ssa.Value]bool{})
 				}
 			}
